@@ -7,7 +7,7 @@ from ..runner import Outcome, Part
 
 ID = "C02"
 TITLE = "Inter-assembly heat exchange is conservative; core balance closes"
-TECHNIQUE = "property-based testing (Hypothesis): per-step and whole-sweep conservation identities between assemblies and gap on generated cores (1/7/19 positions, empty positions, mixed meshes)"
+TECHNIQUE = "property-based testing (Hypothesis): per-step and whole-sweep conservation identities between assemblies and gap on generated cores (1/7/19/37 positions, empty positions, mixed meshes, identical and nearly identical twin assemblies)"
 RULE = ("generated cores of 1, 7 or 19 positions (empty positions, periphery, 1-3 assembly types with different ring "
         "counts, double ducts, low-fidelity types), constant-property coolant, flowing gap (and gap_model none for the "
         "adiabatic clause), driven step by step.  Non-trivial: >= 2 assemblies with different duct meshes or an empty "
